@@ -519,8 +519,18 @@ func checkFifoShape(c *Ctx, r *Report, fQueue, fDepth *types.Var) {
 		}
 		// depth = len(list) recomputed from the list is the same bookkeeping
 		if call, ok := v.(*ssa.Call); ok {
-			if b, ok := call.Call.Value.(*ssa.Builtin); ok && b.Name() == "len" && isLoad(call.Call.Args[0], fQueue) {
-				return "len"
+			if b, ok := call.Call.Value.(*ssa.Builtin); ok && b.Name() == "len" {
+				if isLoad(call.Call.Args[0], fQueue) {
+					return "len"
+				}
+				// ... or from the very value this function stores as the new list
+				if fn := call.Parent(); fn != nil {
+					for _, q := range stores(fn, fQueue) {
+						if q == call.Call.Args[0] {
+							return "len"
+						}
+					}
+				}
 			}
 		}
 		if bo, ok := v.(*ssa.BinOp); ok && isLoad(bo.X, fDepth) {
